@@ -253,8 +253,17 @@ class World:
                 self.root = ExpressionParser().parse(t["text"])
             except Exception:
                 self.root = build([None, None])
+            # displayed trees are usually rewrite results: they contain clone()d
+            # sub-expressions, i.e. several nodes with the same id
+            for name, k in t.get("rewrites", []):
+                self.root = self._rewrite(self.root, name, k)
         else:
             self.root = build(t["shape"])
+        if cfg.get("dup_ids"):
+            # ids are not unique in real trees (clone() copies them); label nodes from a small set
+            nodes = [n for n, _ in preorder(self.root)]
+            for i, n in enumerate(nodes):
+                n.id = "dup-%d" % (core.derive("dupid", cfg["dup_ids"], i) % max(1, len(nodes) // 3 + 1))
         # a caller may keep one TreeLayout object for all its calls, or make one per call
         self.shared = None
         if cfg.get("shared_layouter", False):
@@ -264,6 +273,20 @@ class World:
         self.prev = "first"
         self.hist = []
         res.sigs = {"histories": set(), "shapes": set()}
+
+    @staticmethod
+    def _rewrite(root, name, k):
+        try:
+            from . import rewrite_sim
+            rule = rewrite_sim.make_rules()[name]
+            nodes = rule.find_nodes(root)
+            if not nodes:
+                return root
+            node = nodes[k % len(nodes)]
+            out = rule.apply_to(node.clone_from_root()).result
+            return out.get_root() if out is not None else root
+        except Exception:
+            return root
 
     def apply(self, op):
         from mathy_core.layout import TreeLayout
@@ -466,7 +489,12 @@ class LayoutSim:
             g = {"depth": rng.choice([2, 3, 4]), "space": 1, "floats": False, "eq": True,
                  "fact": True, "sgn": True}
             cfg["tree"] = {"kind": "expr", "text": gen.valid_text(rng, g)}
+            if rng.random() < 0.7:
+                cfg["tree"]["rewrites"] = [[rng.choice(["DM", "DM", "BM", "MI", "CS", "AG", "DF", "VM", "RS", "CA"]),
+                                            rng.randrange(64)] for _ in range(rng.choice([1, 2, 4, 8]))]
         cfg["shared_layouter"] = rng.random() < 0.6
+        if rng.random() < 0.3:
+            cfg["dup_ids"] = rng.randrange(1, 2 ** 31)
         cfg["n_ops"] = rng.choice([2, 3, 4, 6, 10])
         cfg["w"] = {"root": rng.choice([3, 5]), "sub": rng.choice([0, 1, 2, 3]),
                     "edit": rng.choice([0, 0, 1, 2])}
